@@ -652,4 +652,81 @@ Proof.
         -- unfold closing. norm_goal. reflexivity.
 Qed.
 
+(* ---------- the shape of a serialized element, and its size ---------- *)
+Lemma ser_shape name ty attrs content nm mode ats indent inline bytes :
+  to_str tab_el name = Some nm -> SAT attrs = Val ats -> content_mode T ty = Val mode -> ShapeOk mode content ->
+  SER (ENode name ty attrs content None) indent inline = Val bytes ->
+  let ws := if inline then @nil N else newline_indent indent in
+  (content = [] /\ bytes = ws ++ [60] ++ nm ++ ats ++ [47; 62]) \/
+  (content <> [] /\ exists body wsc indent' inline',
+     blanks wsc /\ ItemsSer indent' inline' content body /\
+     (Forall (fun c => is_text c = false) content \/ (inline' = true /\ wsc = [] /\ no_adjacent content)) /\
+     bytes = ws ++ [60] ++ nm ++ ats ++ [62] ++ body ++ closing wsc nm).
+Proof.
+  intros TS SA CM SH SB. cbv zeta. rewrite ser_elem_eq, TS, SA in SB. cbn [unwrap bind] in SB. cbv zeta in SB. cbn [comment_part app] in SB.
+  destruct content as [|first rest].
+  - left. injection SB as <-. split; reflexivity.
+  - right. split; [discriminate|]. remember (first :: rest) as content eqn:EC.
+    rewrite CM in SB. cbn [bind] in SB. unfold ShapeOk in SH.
+    destruct (mode =? MCharacters) eqn:MC.
+    + destruct SH as [SH|(v & SH)]; [congruence|]. rewrite SH in *. injection EC as <- <-.
+      destruct (SCD v) as [vb| |] eqn:SV; try discriminate SB. cbn [bind] in SB. injection SB as <-.
+      exists (vb ++ []), [], (S indent), true. split; [reflexivity|]. split; [constructor; [exact SV|constructor]|]. split.
+      * right. split; [reflexivity|]. split; [reflexivity|]. intros a b pre post E. exfalso.
+        apply (f_equal (@List.length _)) in E. rewrite app_length in E. cbn [List.length] in E. lia.
+      * unfold closing. norm_goal. reflexivity.
+    + destruct (mode =? MMixed) eqn:MM.
+      * destruct (ser_items SCD (fun sub => SER sub (S indent) true) content) as [body| |] eqn:SI; try discriminate SB.
+        cbn [bind] in SB. injection SB as <-.
+        exists body, [], (S indent), true. split; [reflexivity|]. split; [exact (ser_items_rel (S indent) content body SI)|]. split.
+        -- right. split; [reflexivity|]. split; [reflexivity|]. exact SH.
+        -- unfold closing. norm_goal. reflexivity.
+      * destruct (ser_subs (fun sub => SER sub (S indent) false) content) as [body| |] eqn:SI; try discriminate SB.
+        cbn [bind] in SB. injection SB as <-.
+        exists body, (newline_indent indent), (S indent), false. split; [exact (blanks_indent false indent)|].
+        split; [exact (ser_subs_rel (S indent) content SH body SI)|]. split; [left; exact SH|].
+        unfold closing. norm_goal. reflexivity.
+Qed.
+
+(* a serialized canonical tree is at least as long as it is deep and wide *)
+Lemma items_size i' il' ty mode : forall l prev pre bs,
+  (forall c0 b0, In (inl c0) l -> Canon c0 -> SER c0 i' il' = Val b0 ->
+     (depth c0 <= List.length b0)%nat /\ (width c0 <= List.length b0)%nat) ->
+  ChildrenOk ty mode prev pre l -> ItemsSer i' il' l bs ->
+  (maxd l <= List.length bs)%nat /\ (maxw l <= List.length bs)%nat /\ (List.length l <= List.length bs)%nat.
+Proof.
+  induction l as [|item l IHl]; intros prev pre bs SZ CK0 IS0.
+  - cbn. lia.
+  - inversion CK0 as [|? ? ? ? c0 ? idx0 _ _ _ CA0 CK1|? ? ? ? v0 ? TO0 _ CK1]; subst.
+    + inversion IS0 as [|? ? b0 bs0 SB0 IS1|]; subst.
+      destruct (SZ c0 b0 (or_introl eq_refl) CA0 SB0) as [D0 W0].
+      destruct (IHl _ _ bs0 ltac:(intros c1 b1 H1; apply SZ; right; exact H1) CK1 IS1) as (A & B & C).
+      assert (1 <= List.length b0)%nat by (destruct c0; rewrite depth_node in D0; lia).
+      cbn [maxd maxw List.length]. rewrite app_length. lia.
+    + inversion IS0 as [| |? ? vb0 bs0 SV0 IS1]; subst.
+      destruct (IHl _ _ bs0 ltac:(intros c1 b1 H1; apply SZ; right; exact H1) CK1 IS1) as (A & B & C).
+      destruct TO0 as (cs & vb' & isr & _ & _ & _ & SV' & _ & NW). rewrite SV0 in SV'. injection SV' as <-.
+      assert (1 <= List.length vb0)%nat by (destruct vb0; [discriminate NW|cbn; lia]).
+      cbn [maxd maxw List.length]. rewrite app_length. lia.
+Qed.
+
+Lemma canon_size : forall d c, (depth c <= d)%nat -> Canon c -> forall indent inline bytes, SER c indent inline = Val bytes ->
+  (depth c <= List.length bytes)%nat /\ (width c <= List.length bytes)%nat.
+Proof.
+  induction d as [|d IH]; intros c DC CA indent inline bytes SB.
+  { destruct c. rewrite depth_node in DC. lia. }
+  destruct CA as [name ty attrs content nm mode named (TS & CN & FB) [AF AREQ] CM SH CK NV NAMED].
+  destruct (ser_attrs_total T tab_at tab_en check_fn float_fmt float_parse ver ty attrs AF) as (ats & SA & _ & _).
+  rewrite depth_node in *. rewrite width_node.
+  destruct (ser_shape name ty attrs content nm mode ats indent inline bytes TS SA CM SH SB) as [[-> ->]|(NE & body & wsc & i' & il' & _ & IS & _ & ->)].
+  - cbn [maxd maxw List.length]. repeat (rewrite app_length || cbn [List.length]). lia.
+  - destruct (items_size i' il' ty mode content [] [] body) as (A & B & C); [|exact CK|exact IS|].
+    + intros c0 b0 H0 CA0 SB0. apply (IH c0 ltac:(pose proof (maxd_in _ _ H0); lia) CA0 i' il' b0 SB0).
+    + unfold closing. repeat (rewrite app_length || cbn [List.length]). lia.
+Qed.
+
+Lemma canon_size_all c : Canon c -> forall indent inline bytes, SER c indent inline = Val bytes ->
+  (depth c <= List.length bytes)%nat /\ (width c <= List.length bytes)%nat.
+Proof. intros CA. apply (canon_size (depth c) c (le_n _) CA). Qed.
+
 End Elem.
